@@ -544,7 +544,7 @@ func (c *Compiler) Compile(node parser.Node) error {
 			case Object: // builtin module
 				c.emit(node, parser.OpConstant, c.addConstant(v))
 			default:
-				panic(fmt.Errorf("invalid import value type: %T", v))
+				return c.errorf(node, "invalid import value type: %T", v)
 			}
 		} else if c.allowFileImport {
 			moduleName := node.ModuleName
